@@ -43,7 +43,36 @@ func trapScript(kind int, t uint16) string {
 }
 
 type progBuilder struct {
-	code []uint8
+	code  []uint8
+	lowZp bool // the program may store to $00 (plain memory there: no bank register / MMU cell)
+	// intercepted zero-page cells on a machine where a pointer left half-written (its set-up store was intercepted)
+	// could aim at a bank register, an I/O cell or at nothing: no pointer is placed there
+	hot []uint8
+}
+
+// padTo appends NOPs until the next byte emitted lies at an address whose low byte is pos
+func (p *progBuilder) padTo(pos uint8) {
+	for lo(uint16(trapProgAt+len(p.code))) != pos {
+		p.code = append(p.code, 0xEA)
+	}
+}
+
+// jsrAt appends LDX #sp; TXS; JSR next, the JSR opcode placed at an address $xxPOS.  The pushed return address is
+// the address of the last byte of the JSR (data sheet): for POS = $FE, $FF its high byte is one more than the page of the opcode.
+// The high byte goes to $0100+sp, the low byte to $0100+((sp-1) mod 256).
+func (p *progBuilder) jsrAt(sp, pos uint8) {
+	p.code = append(p.code, 0xA2, sp, 0x9A)
+	p.padTo(pos)
+	at := uint16(trapProgAt + len(p.code) + 3)
+	p.code = append(p.code, 0x20, lo(at), hi(at), 0xEA, 0xEA)
+}
+
+// setPtr stores the little endian pointer w in the zero page cells z and (z+1) mod 256
+func (p *progBuilder) setPtr(z uint8, w uint16) {
+	p.op(0xA9, lo(w))
+	p.op(0x85, z)
+	p.op(0xA9, hi(w))
+	p.op(0x85, z+1)
 }
 
 func (p *progBuilder) op(b ...uint8) {
@@ -60,6 +89,21 @@ func storeInstr(r *rng.R, p *progBuilder, a uint16, c02 bool, idx int) {
 	if r.Chance(20) {
 		d = uint8(r.Intn(256))
 	}
+	// geometry at the edges: a pointer cell at the end of the zero page (its high byte then lives in $00), an index that
+	// makes the effective address wrap (page, zero page, 64K)
+	ptrAt := func() uint8 {
+		z := []uint8{0xFF, 0xFE, 0xFF, 0x80, 0x10, 0xFF}[r.Intn(6)]
+		if z == 0xFF && !p.lowZp {
+			z = 0xFE
+		}
+		for _, h := range p.hot {
+			if h == z || h == z+1 {
+				return 0x46
+			}
+		}
+		return z
+	}
+	wrapD := func() uint8 { return []uint8{0xFF, 0x80, 0x01, lo(a) + 1, uint8(r.Intn(256))}[r.Intn(5)] }
 	type alt func()
 	alts := []alt{
 		func() { p.op(0xA9, v); p.op(0x8D, lo(a), hi(a)) },
@@ -99,6 +143,32 @@ func storeInstr(r *rng.R, p *progBuilder, a uint16, c02 bool, idx int) {
 			p.op(0xAD, lo(a), hi(a))
 			p.op(0x8D, lo(0x0310+uint16(idx)), hi(0x0310+uint16(idx)))
 		},
+		func() { // STA (zp),Y: pointer at a zero-page edge, index that wraps
+			z, e := ptrAt(), wrapD()
+			p.setPtr(z, a-uint16(e))
+			p.op(0xA9, v)
+			p.code = append(p.code, 0xA0, e, 0x91, z, 0xEA, 0xEA)
+		},
+		func() { // STA (zp,X): pointer at a zero-page edge, operand + X wraps inside the zero page
+			z, e := ptrAt(), wrapD()
+			p.setPtr(z, a)
+			p.op(0xA9, v)
+			p.code = append(p.code, 0xA2, e, 0x81, z-e, 0xEA, 0xEA)
+		},
+		func() { // absolute indexed forms whose index carries into the next page / around $FFFF
+			e := wrapD()
+			os := []uint8{0x9D, 0x99, 0xFE, 0xDE, 0x1E, 0x5E, 0x3E, 0x7E}
+			if c02 {
+				os = append(os, 0x9E)
+			}
+			o := os[r.Intn(len(os))]
+			ldi := uint8(0xA2)
+			if o == 0x99 {
+				ldi = 0xA0
+			}
+			p.op(0xA9, v)
+			p.code = append(p.code, ldi, e, o, lo(a-uint16(e)), hi(a-uint16(e)), 0xEA, 0xEA)
+		},
 	}
 	if c02 {
 		alts = append(alts,
@@ -112,6 +182,18 @@ func storeInstr(r *rng.R, p *progBuilder, a uint16, c02 bool, idx int) {
 				p.op(0x85, 0x45)
 				p.op(0xA9, v)
 				p.op(0x92, 0x44)
+			},
+			func() { // STA (zp), pointer at a zero-page edge: with operand $FF the high byte of the pointer is in $00
+				z := ptrAt()
+				p.setPtr(z, a)
+				p.op(0xA9, v)
+				p.op(0x92, z)
+			},
+			func() { // LDA (zp) through such a pointer: a load, never intercepted; keep what was read
+				z := ptrAt()
+				p.setPtr(z, a)
+				p.op(0xB2, z)
+				p.op(0x8D, lo(0x0310+uint16(idx)), hi(0x0310+uint16(idx)))
 			},
 		)
 	}
@@ -127,6 +209,25 @@ func storeInstr(r *rng.R, p *progBuilder, a uint16, c02 bool, idx int) {
 			func() { p.op(0xA2, v); p.code = append(p.code, 0xA0, d, 0x96, z-d, 0xEA, 0xEA) },
 			func() {
 				p.code = append(p.code, 0xA2, d, []uint8{0xF6, 0xD6, 0x16, 0x56, 0x36, 0x76}[r.Intn(6)], z-d, 0xEA, 0xEA)
+			},
+			func() { // zero page indexed forms whose index wraps inside the zero page
+				e := wrapD()
+				os := []uint8{0x95, 0x94, 0x96, 0xF6, 0xD6, 0x16, 0x56, 0x36, 0x76}
+				if c02 {
+					os = append(os, 0x74)
+				}
+				o := os[r.Intn(len(os))]
+				ldi := uint8(0xA2)
+				if o == 0x96 {
+					ldi = 0xA0
+				}
+				p.op(0xA9, v)
+				if o == 0x94 {
+					p.op(0xA0, v)
+				} else if o == 0x96 {
+					p.op(0xA2, v)
+				}
+				p.code = append(p.code, ldi, e, o, z-e, 0xEA, 0xEA)
 			},
 		)
 		if c02 {
@@ -148,8 +249,22 @@ func storeInstr(r *rng.R, p *progBuilder, a uint16, c02 bool, idx int) {
 				p.code = append(p.code, 0xA2, s, 0x9A, 0x20, lo(at), hi(at), 0xEA, 0xEA)
 			},
 		)
+		// JSR whose opcode lies at $xxFD, $xxFE, $xxFF (the pushed return address is the address of the LAST byte of the
+		// instruction, so its high byte carries for the latter two); the trap / port receives the high byte (SP = s) or
+		// the low byte (SP = s+1; for s = $FF the stack pointer wraps between the two pushes)
+		alts = append(alts, func() {
+			sp := s
+			if r.Intn(3) == 0 {
+				sp = s + 1
+			}
+			p.jsrAt(sp, []uint8{0xFE, 0xFD, 0xFF, 0xFE}[r.Intn(4)])
+		})
 		if c02 {
 			alts = append(alts, func() { p.op(0xA2, v); p.code = append(p.code, 0xA0, s, 0x5A, 0xEA, 0xEA) }) // PHY (SP unknown: wherever)
+			alts = append(alts,
+				func() { p.code = append(p.code, 0xA2, s, 0x9A, 0xA2, v, 0xDA, 0xEA, 0xEA) }, // TXS; PHX
+				func() { p.code = append(p.code, 0xA2, s, 0x9A, 0xA0, v, 0x5A, 0xEA, 0xEA) }, // TXS; PHY
+			)
 		}
 	}
 	alts[r.Intn(len(alts))]()
@@ -187,7 +302,10 @@ func genTrapCase(r *rng.R) *trapCase {
 	}
 	t := c.t
 	c.init[t], c.init[t-1], c.init[t+1], c.init[t^0x0100] = 0x5C, 0x11, 0x22, 0x33
-	p := &progBuilder{}
+	p := &progBuilder{lowZp: c.base == "sparse"}
+	if c.base != "sparse" && c.base != "Linear64K" && t>>8 == 0 {
+		p.hot = []uint8{lo(t)}
+	}
 	n := 3 + r.Intn(10)
 	for i := 0; i < n; i++ {
 		a := t
@@ -378,7 +496,10 @@ func genPortCase(r *rng.R) *portCase {
 		used = append(used, o)
 	}
 	sort.Slice(used, func(i, j int) bool { return used[i] < used[j] })
-	p := &progBuilder{}
+	p := &progBuilder{lowZp: c.spec == "Linear64K"}
+	if c.spec != "Linear64K" && c.ioMask == 0 {
+		p.hot = used
+	}
 	n := 2 + r.Intn(24)
 	page := uint16(c.ioMask) << 8
 	for i := 0; i < n; i++ {
@@ -452,10 +573,94 @@ func (c *portCase) request() string {
 	return fmt.Sprintf("port %02x %s %s %s", c.ioMask, strings.Join(ps, ","), hexOf(c.code), c.spec)
 }
 
+// fixedTrapCases: the boundary geometries that random placement reaches only now and then, through every trap
+// implementation and both CPU models: a trap in the stack page hit by the pushes of JSRs located at $xxFD, $xxFE, $xxFF
+// (high byte trapped, then low byte trapped with the stack pointer wrapping) and by PHA/PHP/PHX/PHY; a trap reached
+// through pointers in $FF/$00 ((zp),Y, (zp,X) with a wrapping operand, 65C02 (zp)) and through wrapping indexes.
+func fixedTrapCases() []*trapCase {
+	cs := []*trapCase{}
+	for _, path := range []string{"A", "B", "N"} {
+		for model := 0; model < 2; model++ {
+			c02 := model == 1
+			// stack page
+			p := &progBuilder{lowZp: true}
+			for _, sp := range []uint8{0xFF, 0x00} {
+				for _, pos := range []uint8{0xFD, 0xFE, 0xFF} {
+					p.jsrAt(sp, pos)
+				}
+			}
+			p.op(0xA9, 0x5A)
+			p.code = append(p.code, 0xA2, 0xFF, 0x9A, 0x48, 0xEA, 0xEA)
+			p.code = append(p.code, 0xA2, 0xFF, 0x9A, 0x08, 0xEA, 0xEA)
+			if c02 {
+				p.code = append(p.code, 0xA2, 0xFF, 0x9A, 0xA2, 0xA5, 0xDA, 0xEA, 0xEA)
+				p.code = append(p.code, 0xA2, 0xFF, 0x9A, 0xA0, 0xC3, 0x5A, 0xEA, 0xEA)
+			}
+			p.code = append(p.code, 0x00)
+			cs = append(cs, &trapCase{model: model, path: path, t: 0x01FF, kind: 0, base: "sparse", code: p.code,
+				init: map[uint16]uint8{0x01FF: 0x5C, 0x01FE: 0x11, 0x0100: 0x22}})
+			// pointers at the end of the zero page, wrapping indexes
+			const t = 0x3C80
+			p = &progBuilder{lowZp: true}
+			p.setPtr(0xFF, t-0x90)
+			p.op(0xA9, 0x61)
+			p.code = append(p.code, 0xA0, 0x90, 0x91, 0xFF, 0xEA, 0xEA) // STA ($FF),Y
+			p.setPtr(0xFF, t)
+			p.op(0xA9, 0x62)
+			p.code = append(p.code, 0xA2, 0x80, 0x81, 0x7F, 0xEA, 0xEA) // STA ($7F,X), X = $80
+			p.op(0xA9, 0x63)
+			p.code = append(p.code, 0xA2, 0xFF, 0x9D, lo(t-0xFF), hi(t-0xFF), 0xEA, 0xEA) // STA abs,X over the page boundary
+			if c02 {
+				p.op(0xA9, 0x64)
+				p.op(0x92, 0xFF) // STA ($FF)
+				p.setPtr(0xFE, t)
+				p.op(0xA9, 0x65)
+				p.op(0x92, 0xFE) // STA ($FE)
+				p.setPtr(0xFF, t+1)
+				p.op(0xA9, 0x66)
+				p.op(0x92, 0xFF) // STA ($FF) aimed at the neighbour
+				p.op(0xB2, 0xFF) // LDA ($FF)
+				p.op(0x8D, 0x10, 0x03)
+			}
+			p.code = append(p.code, 0x00)
+			cs = append(cs, &trapCase{model: model, path: path, t: t, kind: 0, base: "sparse", code: p.code,
+				init: map[uint16]uint8{t: 0x5C, t - 1: 0x11, t + 1: 0x22, 0x0100: t>>8 + 1, 0x0101: t>>8 + 1}})
+		}
+	}
+	return cs
+}
+
+// fixedPortCases: ports in the stack page receiving the two bytes pushed by a JSR at $xxFE; a port reached through ($FF)
+func fixedPortCases() []*portCase {
+	p := &progBuilder{lowZp: true}
+	for _, pos := range []uint8{0xFD, 0xFE, 0xFF} {
+		p.jsrAt(0xFF, pos)
+	}
+	p.code = append(p.code, 0x00)
+	c1 := &portCase{spec: "Linear64K", ioMask: 0x01, ports: map[uint8]string{0xFF: "stdout:16", 0xFE: "stdout:bin"}, code: p.code}
+	p = &progBuilder{lowZp: true}
+	p.setPtr(0xFF, 0x2DDD)
+	p.op(0xA9, 0x41)
+	p.op(0x92, 0xFF)
+	p.op(0xA9, 0x42)
+	p.code = append(p.code, 0xA0, 0x01, 0x91, 0xFF, 0xEA, 0xEA)
+	p.code = append(p.code, 0x00)
+	c2 := &portCase{spec: "Linear64K", ioMask: 0x2D, ports: map[uint8]string{0xDD: "stdout:bin", 0xDE: "stdout:16"}, code: p.code}
+	return []*portCase{c1, c2}
+}
+
 func trapStream(seed uint64, n int) {
 	r := rng.New(seed + 1010)
 	dir := tmpDir()
 	defer os.RemoveAll(dir)
+	for _, c := range fixedTrapCases() {
+		count("trap.fixed." + c.path)
+		emit(c.request() + " => " + c.run(dir))
+	}
+	for _, c := range fixedPortCases() {
+		count("port.fixed")
+		emit(c.request() + " => " + c.run(dir))
+	}
 	// always: one run with thousands of trap calls, through each of the two trap implementations
 	for _, path := range []string{"A", "B"} {
 		c := genTrapCase(r)
